@@ -79,11 +79,14 @@ def plan(ctx: Ctx) -> list:
               [boss_spec(m, t, CTREES[t]) for t in line_trees
                for m in ('remote', 'local')],
               1, 'preemption', 60 if q else 300))
-    if not q:
-        P.append(('line/cancel/preempt<=2',
-                  [boss_spec(m, t, CTREES[t]) for t in line_trees
-                   for m in ('remote', 'local')],
-                  2, 'preemption', 1200))
+    # two preemptions: check-then-act windows of the main loop against the
+    # incoming thread's cancel handling need both (two such defects were
+    # found at this bound); quick takes the scenario that showed them
+    P.append(('line/cancel/preempt<=2',
+              [boss_spec('local', 'mapcancel2', CTREES['mapcancel2'])] if q
+              else [boss_spec(m, t, CTREES[t]) for t in line_trees
+                    for m in ('remote', 'local')],
+              2, 'preemption', 70 if q else 1200))
     topos = ['a1', 'a2', 'a3', 'd2', 'd11'] + ([] if q else ['a4', 'd21'])
     P.append(('world/trees/deviation<=1',
               [tree_spec(tp, tr) for tp in topos for tr in CTREES],
@@ -93,7 +96,8 @@ def plan(ctx: Ctx) -> list:
                for s in client_specs(tp)],
               1, 'deviation', 80 if q else 900))
     small = [tree_spec(tp, tr) for tp in ('a2',) for tr in
-             ('cancel-await', 'mapcancel2')]
+             ('cancel-await', 'mapcancel2')] + \
+        [tree_spec('a1', 'mapcancel-nested')]
     if not q:
         small = [tree_spec(tp, tr) for tp in ('a1', 'a2', 'd11')
                  for tr in CTREES] + \
